@@ -292,8 +292,7 @@ func main() {
 			gv = append(append(append([]*Term{}, o.Inputs...), sks...), heapReads(asserts)...)
 		}
 		o.GetValues = gv
-		used := func(name string) bool { _, ok := ufDecls[name]; return ok }
-		scripts[i] = Script(asserts, stringAxioms(used), gv)
+		scripts[i] = Script(asserts, stringAxioms(asserts), gv)
 		o.File = filepath.Join(*out, fmt.Sprintf("vc_%04d_%s.smt2", i, sanitize(o.Name)))
 	}
 	mu.Unlock()
